@@ -60,7 +60,10 @@ type setPtr struct{ s stun.Setter }
 
 func (p *setPtr) AddTo(m *stun.Message) error { return p.s.AddTo(m) }
 
-var c20Suffixes = [][]string{{}, {"MI:k20"}, {"MI:k64"}, {"MI:k65"}, {"MI:k200"}, {"FP"}, {"MI:k20", "FP"}}
+// "TAIL" is an attribute behind the ones that are meant to come last (a relay that appends): the message decodes, the
+// integrity check is specified to ignore it, the fingerprint check may fail on it, and neither may allocate for it
+var c20Suffixes = [][]string{{}, {"MI:k20"}, {"MI:k64"}, {"MI:k65"}, {"MI:k200"}, {"FP"}, {"MI:k20", "FP"},
+	{"FP", "TAIL"}, {"MI:k20", "TAIL"}, {"MI:k20", "FP", "TAIL"}, {"MI:k20", "FP", "TAIL", "TAIL"}}
 
 type c20Shape struct {
 	Kinds  []int    `json:"kinds"`
@@ -86,6 +89,8 @@ func (s c20Shape) setters() ([]stun.Setter, stun.MessageIntegrity) {
 	for _, x := range s.Suffix {
 		if x == "FP" {
 			ss = append(ss, stun.Fingerprint)
+		} else if x == "TAIL" {
+			ss = append(ss, stun.RawAttribute{Type: 0x7F02, Value: []byte{9, 8, 7, 6, 5}})
 		} else {
 			key = c20IntegrityKeys[x[3:]]
 			ss = append(ss, &setPtr{key})
@@ -274,10 +279,17 @@ func c20Measure(s c20Shape, warm string, only string) (allocating []string, nops
 			_, _ = m.Write(raw)
 		}})
 	}
+	fpFails := ""
+	if len(s.Suffix) > 0 && s.Suffix[len(s.Suffix)-1] == "TAIL" {
+		fpFails = "/mismatch" // (the debug build allocates the error value of a failed check by design)
+	}
 	for _, x := range s.Suffix {
 		if x == "FP" {
-			ops = append(ops, op{name: "Fingerprint.Check", f: func() { _ = stun.Fingerprint.Check(m) }})
-			if key != nil {
+			ops = append(ops, op{name: "Fingerprint.Check" + fpFails, f: func() { _ = stun.Fingerprint.Check(m) }})
+			if key != nil && fpFails != "" {
+				miFP := []stun.Checker{key, stun.Fingerprint}
+				ops = append(ops, op{name: "Message.Check(integrity, fingerprint)/mismatch", f: func() { _ = m.Check(miFP...) }})
+			} else if key != nil {
 				// the batch helper, checkers in both orders (the slices are built once, outside the measurement)
 				miFP := []stun.Checker{key, stun.Fingerprint}
 				fpMI := []stun.Checker{stun.Fingerprint, key}
